@@ -298,6 +298,7 @@ func Run(ctx *core.Ctx) {
 	// interleave so that every batch mixes kinds (and the slow ones spread out)
 	nb := ctx.N(6, 12)
 	batches := make([][]*Case, nb)
+	var crowdParts [][]*Case
 	var alone, lattice []*Case
 	for i, c := range cases {
 		if c.Kind == "label" {
@@ -320,6 +321,23 @@ func Run(ctx *core.Ctx) {
 	if len(lattice) > 0 {
 		batches = append(batches, lattice)
 	}
+	// a crowd of local error responses at once: error responses are built on one connection and written
+	// later, after the response modifiers; storage shared between connections in that window (a pooled
+	// body buffer handed out again before the first response was written) shows only when many refused
+	// dials are answered concurrently. Each case names its own host, so a body is attributable.
+	if os.Getenv("C12_ONLY") == "" || os.Getenv("C12_ONLY") == "crowd" {
+		var crowd []*Case
+		for i, n := 0, ctx.N(1600, 8000); i < n; i++ {
+			via := []string{"plain", "connect", "plain", "https"}[i%4]
+			crowd = append(crowd, &Case{ID: fmt.Sprintf("C%d", 900001+i), Kind: "dial", Via: via, Fault: "refused", ReqMinor: 1, What: "crowd/refused/" + via})
+		}
+		for len(crowd) > 0 {
+			n := min(len(crowd), 800)
+			part := crowd[:n]
+			crowd = crowd[n:]
+			crowdParts = append(crowdParts, part)
+		}
+	}
 	maxPer := 700
 	var wg sync.WaitGroup
 	sem := make(chan struct{}, ctx.N(6, 7))
@@ -341,6 +359,9 @@ func Run(ctx *core.Ctx) {
 		}
 	}
 	wg.Wait()
+	for _, part := range crowdParts {
+		execute(ctx, part, 48, 0) // one after the other, 48 clients each: the crowd is the point
+	}
 	ctx.Extra("exhaustive_offsets", "every byte offset (head and body) x FIN/RST for the small replies of families A (plain: cl, chunked, eof; https: cl; thorough tier: also https chunked/eof, intercepted cl/chunked/eof, via upstream) and every offset of a small CONNECT rejection; handler variant: plain chunked (thorough tier: also plain eof/cl, https chunked, via upstream chunked); hosts: every byte offset 240..260 as the start of a 2-, 3- and 4-byte encoding, as CONNECT authority")
 }
 
